@@ -129,6 +129,22 @@ type addHook6 struct{ k string }
 
 func (h addHook6) Run(e *zerolog.Event, l zerolog.Level, m string) { e.Str(h.k, "hv") }
 
+// failOut6: a destination that refuses every third line, takes 4 bytes of every other third and accepts the rest.
+type failOut6 struct{ n int }
+
+func (w *failOut6) Write(p []byte) (int, error) {
+	w.n++
+	switch w.n % 3 {
+	case 0:
+		return 0, errors.New("failOut6: refused")
+	case 1:
+		if len(p) > 4 {
+			return 4, io.ErrShortWrite
+		}
+	}
+	return len(p), nil
+}
+
 type chain6 struct {
 	id  string
 	ev  gen.EventSpec
@@ -171,6 +187,9 @@ func c06run(out *evid.Out, f *evid.Flags, run int) {
 	st.GlobalLevel = zerolog.TraceLevel
 	restore := st.Apply()
 	defer restore()
+	oldEH := zerolog.ErrorHandler
+	zerolog.ErrorHandler = func(error) {} // write errors of the deliberately failing destination are not printed
+	defer func() { zerolog.ErrorHandler = oldEH }()
 	var nviol int32
 	viol := func(sig, desc string) {
 		if atomic.AddInt32(&nviol, 1) <= 20 {
@@ -179,8 +198,11 @@ func c06run(out *evid.Out, f *evid.Flags, run int) {
 		}
 	}
 	// chains
-	var nPanicEntries int64
-	defer func() { out.Count("panic_entry_events", nPanicEntries) }()
+	var nPanicEntries, nPoison int64
+	defer func() {
+		out.Count("panic_entry_events", nPanicEntries)
+		out.Count("events_through_a_failing_console_destination_nearby", nPoison)
+	}()
 	x := &gen.Exec{}
 	chains := make([][]chain6, G)
 	for w := 0; w < G; w++ {
@@ -376,6 +398,25 @@ func c06run(out *evid.Out, f *evid.Flags, run int) {
 			runtime.Gosched()
 		}
 	}()
+	if destKind == 3 || destKind == 5 || destKind == 7 {
+		// next to the console destinations under test, another goroutine logs through a ConsoleWriter of its own whose
+		// destination refuses every line or takes only a few bytes of it: nothing of that may show anywhere else
+		twg.Add(1)
+		go func() {
+			defer twg.Done()
+			bl := zerolog.New(zerolog.ConsoleWriter{Out: &failOut6{}, NoColor: true, TimeFormat: time.RFC3339, TimeLocation: time.UTC})
+			for i := 0; ; i++ {
+				select {
+				case <-stop:
+					return
+				default:
+				}
+				bl.Error().Str("secret", "POISON").Int("i", i).Msg("cannot be delivered")
+				atomic.AddInt64(&nPoison, 1)
+				runtime.Gosched()
+			}
+		}()
+	}
 	var wg sync.WaitGroup
 	start := make(chan struct{})
 	for w := 0; w < G; w++ {
